@@ -65,13 +65,21 @@ TStartCfg == /\ IsEvent("startcfg")
 TSlowChain == /\ IsEvent("slowchain")
               /\ (On \/ "C13" \in Lens) => Trace[l].res = "reply"
               /\ UNCHANGED <<n, started>>
+\* C15 on the listener Start made for a plain unicast address of this host: it is not bound to an interface, so broadcast and
+\* link-level replies leave on the interface the request arrived on (pin4: what VerifSend4Hook captured on that listener)
+TPin4 == /\ IsEvent("pin4")
+         /\ LET e == Trace[l] IN
+              ("C15" \in Lens /\ e.sent) =>
+                 /\ e.bflag => e.pbc
+                 /\ (e.pbc \/ e.l2) => (e.woob /\ e.ifindex = e.arrived)
+         /\ UNCHANGED <<n, started>>
 TWait == /\ IsEvent("wait")
          /\ On => Trace[l].res = "returned"                               \* WaitReturns
          /\ UNCHANGED <<n, started>>
 TNote == IsEvent("note") /\ UNCHANGED <<n, started>>
 
 TraceInit == l = 1 /\ n = 0 /\ started = FALSE
-TraceNext == TStart \/ TPorts \/ TRoundTrip \/ TDatagram \/ TBurst \/ TStartRace \/ TStartCfg \/ TSlowChain \/ TWait \/ TNote
+TraceNext == TStart \/ TPorts \/ TRoundTrip \/ TDatagram \/ TBurst \/ TStartRace \/ TStartCfg \/ TSlowChain \/ TPin4 \/ TWait \/ TNote
 TraceSpec == TraceInit /\ [][TraceNext]_tvars
 TraceAccepted ==
   LET d == TLCGet("stats").diameter
